@@ -69,6 +69,19 @@ theorem beam_components :
     index_Beam.all (fun e => e.2.2.isSome && e.2.2 == beamColumn e.1 e.2.1) = true ∧ index_Beam.length = 46 := by
   decide +kernel
 
+/-- order in time of a scheme: 0 static, 1 first order (damping / capacity term), 2 second order (damping and inertia) -/
+def schemeOrder (a : String) : Nat := if a = "elliptic" then 0 else if a = "parabolic" then 1 else 2
+
+/-- `Calc_Reaction` (branch tests evaluated on every member of `AlgoType`): the reaction on the constrained rows is `K u`
+for a static scheme, `K u + C v` for the first-order one and `K u + C v + M a` for EVERY second-order scheme, and the
+second-order schemes are exactly the six of `Get_Hyperbolic_Types` -/
+theorem reactions_include_damping_and_inertia :
+    reactionTerms.map (·.1) = algoTypes ∧
+    hyperbolicTypes = ["newmark", "midpoint", "hht", "hht_newmark", "euler_implicit", "euler_explicit"] ∧
+    algoTypes = "elliptic" :: "parabolic" :: hyperbolicTypes ∧
+    reactionTerms.all (fun e => e.2 == ["Ku"] ++ (if schemeOrder e.1 ≥ 1 then ["Cv"] else []) ++ (if schemeOrder e.1 ≥ 2 then ["Ma"] else [])) = true := by
+  decide
+
 /-- Kelvin–Mandel storage index of a two-letter component suffix -/
 def kelvinIndex (dim : Nat) (s : List Char) : Option Nat :=
   if dim = 2 then
